@@ -19,6 +19,7 @@ import (
 	"regexp"
 	"sync"
 	"testing"
+	"time"
 	"unsafe"
 
 	"github.com/ProjectSerenity/firefly/kernel"
@@ -209,6 +210,26 @@ func c19PanicText(pc vlib.Caught) string {
 	}
 	v = c19HexRe.ReplaceAllString(v, "0x?")
 	return "panic: " + v + "\n" + pc.Stack
+}
+
+// c19Exec runs one driver call on its own goroutine under CatchFault. A call
+// that has not returned after c19Deadline is stuck in a runaway loop (normal
+// calls take microseconds): the stuck goroutine cannot be stopped and keeps
+// writing to the shared buffer, so the process reports the case and exits.
+const c19Deadline = 3 * time.Second
+
+func c19Exec(c interface{}, when string, f func()) vlib.Caught {
+	done := make(chan vlib.Caught, 1)
+	go func() { done <- vlib.CatchFault(f) }()
+	tm := time.NewTimer(c19Deadline)
+	defer tm.Stop()
+	select {
+	case pc := <-done:
+		return pc
+	case <-tm.C:
+		vlib.Die("C19", c, vlib.Failf("%s: the call did not return within %v (runaway loop over rows/columns that are not in the grid)", when, c19Deadline))
+	}
+	return vlib.Caught{}
 }
 
 type c19Discard struct{}
@@ -429,7 +450,8 @@ func c19TextRun(c c19TextCase) (*vlib.Failure, c19OpStats) {
 			return vlib.Failf("VERIF-HARNESS unknown op kind %q", op.Kind), st
 		}
 
-		pc := vlib.CatchFault(func() {
+		when := fmt.Sprintf("op %d %s on a %dx%d text console", i, op, cols, rows)
+		pc := c19Exec(c, when, func() {
 			switch op.Kind {
 			case "write":
 				cons.Write(op.Ch, op.Fg, op.Bg, op.X, op.Y)
@@ -443,7 +465,6 @@ func c19TextRun(c c19TextCase) (*vlib.Failure, c19OpStats) {
 				cons.Scroll(dir, op.Lines)
 			}
 		})
-		when := fmt.Sprintf("op %d %s on a %dx%d text console", i, op, cols, rows)
 		if pc.Panicked {
 			return vlib.Failf("%s: %s", when, c19PanicText(pc)), st
 		}
